@@ -2,8 +2,8 @@
  * Allocations of symbolic size made the SAT solver run out of memory.  Every request is served
  * from its own constant-size block and is placed at the TAIL of that block, so one byte past the
  * requested size is outside the object and an overflow of the allocation is still a bounds
- * violation; the request must fit the block (checked); any request may fail.  Free records
- * nothing (no leak check).  Blocks are > 64 bytes so that cbmc keeps each as one array.
+ * violation; the request must fit the block (checked); any request may fail.  Free records the
+ * block as freed (double free is a failed obligation; no leak check).  Blocks are > 64 bytes so that cbmc keeps each as one array.
  * Include BEFORE any library header.  VR_ALLOC_IS(p, n): p is an allocation of exactly n bytes. */
 #ifndef VR_ALLOC_H
 #define VR_ALLOC_H
@@ -26,11 +26,30 @@ static void *vr_malloc(size_t n)
     b = k == 0 ? vr_b0 : k == 1 ? vr_b1 : k == 2 ? vr_b2 : k == 3 ? vr_b3 : k == 4 ? vr_b4 : k == 5 ? vr_b5 : k == 6 ? vr_b6 : vr_b7;
     return b + (VR_CAP - n);
 }
-static void vr_free(void *p) { (void) p; }
+/* Free: a block served by vr_malloc may be freed once (a second free of it is a failed obligation); pointers that
+   are not such blocks (objects the harness placed in the session) are ignored.  VR_LIVE(p): p is NULL, or not a
+   modelled block, or a modelled block that has not been freed - "the session keeps no pointer to freed memory". */
+static unsigned char vr_freed[VR_NBLK];
+static int vr_block_of(const void *p)
+{
+    return __CPROVER_same_object(p, vr_b0) ? 0 : __CPROVER_same_object(p, vr_b1) ? 1 : __CPROVER_same_object(p, vr_b2) ? 2 : __CPROVER_same_object(p, vr_b3) ? 3 :
+           __CPROVER_same_object(p, vr_b4) ? 4 : __CPROVER_same_object(p, vr_b5) ? 5 : __CPROVER_same_object(p, vr_b6) ? 6 : __CPROVER_same_object(p, vr_b7) ? 7 : -1;
+}
+static void vr_free(void *p)
+{
+    int k;
+    if (p == NULL) { return; }
+    k = vr_block_of(p);
+    if (k < 0) { return; }
+    __CPROVER_assert(!vr_freed[k], "allocation is freed at most once (double free)");
+    vr_freed[k] = 1;
+}
+# define VR_LIVE(p) ((p) == NULL || vr_block_of(p) < 0 || !vr_freed[vr_block_of(p)])
 # define Malloc vr_malloc
 # define Free vr_free
 # define VR_ALLOC_IS(s, l) (__CPROVER_POINTER_OFFSET(s) + (size_t) (l) == VR_CAP)
 #else
 # define VR_ALLOC_IS(s, l) 1
+# define VR_LIVE(p) 1
 #endif
 #endif
